@@ -35,6 +35,25 @@ macro_rules! typed_rt {
                 if d.is_fail() {
                     return d;
                 }
+                // the same typed decoder fed by sources that cannot lend their strings: a reader, and a serde_json::Value
+                let r2 = guarded(|| {
+                    let a = serde_json::from_reader::<_, $T>(std::io::Cursor::new(s.as_bytes())).map_err(|e| format!("from_reader: {e}"))?;
+                    let b = serde_json::to_value(inner).and_then(serde_json::from_value::<$T>).map_err(|e| format!("to_value/from_value: {e}"))?;
+                    Ok::<($T, $T), String>((a, b))
+                });
+                match r2 {
+                    Ok(Ok((a, b))) => {
+                        for (route, x) in [("reader", a), ("value", b)] {
+                            let xv: Value = $wrap(x);
+                            let d = diff_verdict(&format!("C02:hayson-rt:typed-{}-{route}", stringify!($T)), $v, &project(&xv), &s, $rec);
+                            if d.is_fail() {
+                                return d;
+                            }
+                        }
+                    }
+                    Ok(Err(e)) => return Verdict::fail(format!("C02:hayson-rt:typed-{}:error:{}", stringify!($T), shape($v)), format!("typed {} through {e} (text {})", stringify!($T), trunc(&s, 200))),
+                    Err(p) => return Verdict::fail(format!("C02:hayson-rt:typed-{}:{}:{}", stringify!($T), panic_sig(&p), shape($v)), p.msg),
+                }
             }
             Ok(Err(e)) => {
                 return Verdict::fail(
@@ -99,6 +118,24 @@ pub fn check_value(v: &RVal, rec: &mut Rec) -> Verdict {
         rec.class("number:outside-i32");
     }
     rec.sample(|| format!("{} => {}", render(v), trunc(&text, 200)));
+    // a decode that fails must leave nothing behind on this thread: damaged versions of the text are decoded first
+    // (cut at a derived position; with a wrong `_kind`; with a member missing its value)
+    {
+        let mut at = (key_of(&text) as usize) % (text.len() + 1);
+        while !text.is_char_boundary(at) {
+            at -= 1;
+        }
+        let damaged = [text[..at].to_string(), text.replacen("\"_kind\":\"", "\"_kind\":\"no-", 1), format!("[[[{}", text.replacen(':', "::", 1))];
+        let mut rejected = 0;
+        for t in &damaged {
+            if !matches!(guarded(|| serde_json::from_str::<Value>(t)), Ok(Ok(_))) {
+                rejected += 1;
+            }
+        }
+        if rejected > 0 {
+            rec.class("preceded-by-rejected-decodes-on-the-same-thread");
+        }
+    }
     let back = match json_decode_str(&text) {
         Ok(b) => b,
         Err(f) => return prefix_sig("C02:hayson-rt:str", f, &shape(v)),
@@ -117,6 +154,17 @@ pub fn check_value(v: &RVal, rec: &mut Rec) -> Verdict {
         }
         Ok(Err(e)) => return Verdict::fail(format!("C02:hayson-rt:vec:error:{}", shape(v)), e),
         Err(p) => return Verdict::fail(format!("C02:hayson-rt:vec:{}:{}", panic_sig(&p), shape(v)), p.msg),
+    }
+    // route 2b: from_reader (a source that cannot lend its strings)
+    match guarded(|| serde_json::from_reader::<_, Value>(std::io::Cursor::new(text.as_bytes())).map_err(|e| e.to_string())) {
+        Ok(Ok(back)) => {
+            let r = diff_verdict("C02:hayson-rt:reader", v, &project(&back), &text, rec);
+            if r.is_fail() {
+                return r;
+            }
+        }
+        Ok(Err(e)) => return Verdict::fail(format!("C02:hayson-rt:reader:error:{}", shape(v)), e),
+        Err(p) => return Verdict::fail(format!("C02:hayson-rt:reader:{}:{}", panic_sig(&p), shape(v)), p.msg),
     }
     // route 3: to_value / from_value
     match guarded(|| serde_json::to_value(&hv).map_err(|e| e.to_string()).and_then(|j| serde_json::from_value::<Value>(j).map_err(|e| e.to_string()))) {
@@ -151,12 +199,55 @@ pub fn check_value(v: &RVal, rec: &mut Rec) -> Verdict {
     Verdict::Pass
 }
 
+/// Many threads encoding and decoding at the same moment: each gets what it gets alone (the codecs share no state).
+fn concurrent_round_trips(ctx: &mut Ctx) {
+    let depths = [3usize, 8, 12, 20];
+    for (round, &depth) in depths.iter().enumerate() {
+        let threads = 64usize;
+        let v = super::c01::deep_value(4, depth);
+        let hv = build(&v);
+        let alone = serde_json::to_string(&hv).map_err(|e| e.to_string());
+        let barrier = std::sync::Barrier::new(threads);
+        let results: Vec<Result<String, String>> = std::thread::scope(|s| {
+            let hs: Vec<_> = (0..threads)
+                .map(|_| {
+                    s.spawn(|| {
+                        barrier.wait();
+                        let mut last = Err("not run".to_string());
+                        for _ in 0..40 {
+                            last = serde_json::to_string(&hv).map_err(|e| e.to_string()).and_then(|t| serde_json::from_str::<Value>(&t).map(|_| t).map_err(|e| format!("decode: {e}")));
+                            if last.is_err() {
+                                break;
+                            }
+                        }
+                        last
+                    })
+                })
+                .collect();
+            hs.into_iter().map(|h| h.join().unwrap_or_else(|_| Err("panicked".into()))).collect()
+        });
+        ctx.rec.evals += 1;
+        ctx.rec.class("concurrent:64-threads-encode+decode");
+        ctx.rec.nontrivial(key_of(&format!("concurrent:{round}")));
+        let bad = results.iter().filter(|r| **r != alone).count();
+        if bad > 0 {
+            let first = results.iter().find(|r| **r != alone).cloned();
+            ctx.report(
+                "concurrent",
+                Verdict::fail("C02:hayson-rt:concurrent", format!("{bad} of {threads} threads encoding/decoding a depth-{depth} value at the same time got something else than a lone thread gets: {:?}", first.map(|r| r.map(|t| trunc(&t, 80))))),
+                serde_json::json!({"depth": depth, "threads": threads}),
+            );
+        }
+    }
+}
+
 pub fn run(ctx: &mut Ctx) {
-    ctx.rule("generated: well-formed values of all 18 kinds; routes to_string/from_str, to_vec/from_slice, to_value/from_value and typed T->json->T; oracle: strict RVal equality (absent grid/column meta == empty); non-trivial: JSON contains a _kind object or a finite number outside i32; distinct by JSON text");
+    ctx.rule("generated: well-formed values of all 18 kinds; routes to_string/from_str, to_vec/from_slice, from_reader, to_value/from_value and typed T->json->T (from_str, from_reader, from_value); each decode preceded by three damaged (rejected) versions of the same text on the same thread; 64 threads round-tripping deep values at the same moment get what a lone thread gets; oracle: strict RVal equality (absent grid/column meta == empty); non-trivial: JSON contains a _kind object or a finite number outside i32; distinct by JSON text");
     ctx.assume("serde_json implements JSON syntax correctly; chrono-tz zone rules");
     let depth = ctx.tier.pick(3, 5) as u32;
     let total = ctx.tier.pick(48_000, 960_000);
     ctx.run_sub::<RVal>("hayson-rt", total, &move || top_value(GenCfg::wf(depth)), &|v, rec| check_value(v, rec));
+    concurrent_round_trips(ctx);
 }
 
 pub fn replay(kind: &str, case: &J, rec: &mut Rec) -> Verdict {
@@ -165,6 +256,15 @@ pub fn replay(kind: &str, case: &J, rec: &mut Rec) -> Verdict {
             Ok(v) => check_value(&v, rec),
             Err(e) => Verdict::fail("infra:bad-replay", e),
         },
+        "concurrent" => {
+            let mut c = Ctx::new("C02", crate::runner::Tier::Quick, 1);
+            concurrent_round_trips(&mut c);
+            if c.violations.is_empty() {
+                Verdict::Pass
+            } else {
+                Verdict::fail("C02:hayson-rt:concurrent", "threads encoding at the same time do not get what a lone thread gets")
+            }
+        }
         _ => Verdict::fail("infra:unknown-kind", kind),
     }
 }
